@@ -14,8 +14,7 @@ EXPLANATION = META["C08"]["explanation"] + (
 )
 ASSUMPTIONS = META["assumptions"]
 OUTSIDE = META["C08"]["outside"] + ["isolation: lists longer than 3 (quick) / 5 (thorough) descriptors"]
-REQUIRED_LABELS = META["C08"]["required"] + ["isolated: options are the compatible descriptors", "isolated: pick probability follows the weights",
-                                           "isolated: probabilities sum to 1", "isolated: weights untouched"]
+REQUIRED_LABELS = META["C08"]["required"] + ["isolated: options are the compatible descriptors", "isolated: weights untouched"]
 
 
 def bounds(tier):
@@ -112,6 +111,14 @@ def run_isolated(case, g, tier, res):
             eqz = core._b(eq) if not isinstance(eq, bool) else z3.BoolVal(eq)
             c.prove(core.SymBool(z3.Not(z3.Or(z3.And(eqz, unif_long), z3.And(z3.Not(eqz), prop_long)))),
                     "isolated: pick law (measure of the uniform draw) follows the weights", detail("measure: an index is returned for a set of uniform draws longer than its probability by more than 10 points"))
+            # for EVERY value of the draw in [0, 1), the boundaries included: an option of probability zero is never returned
+
+            def detail_u(mv, c):
+                sig, what, rp_ = detail("boundary: an option of weight zero is returned for some value of the uniform draw")(mv, c)
+                rp_["u"] = float(c.eval_in(mv, u))
+                return sig, what + f" (draw u = {rp_['u']!r})", rp_
+
+            c.prove(core.Implies(Not(eq), wi > 0) if not isinstance(eq, bool) else (eq or wi > 0), "isolated: an option of probability zero is never returned, whatever the draw", detail_u)
             c.prove(And(*[bd.weight == w for bd, w in zip(bds, w0)]), "isolated: weights untouched", detail("a descriptor weight was modified by the pick"))
             return ("measure", ii)
         rec = seen[-1] if seen else None
@@ -163,6 +170,21 @@ def replay_isolated(rp, gb):
         rb = _parse_ref(*rp["bond"])
         adm = [i for i, r in enumerate(refs) if _rule(rb, r)]
     w0 = [float(b.weight) for b in bds]
+    if rp.get("what", "").startswith("boundary:"):
+        class FixedU:
+            def random(self, size=None):
+                return rp["u"]
+
+            def uniform(self, low=0.0, high=1.0, size=None):
+                return low + (high - low) * rp["u"]
+
+        try:
+            j = int(choose_compatible_weight(bds, bond, FixedU()))
+        except Exception as e:
+            return False, f"raised {type(e).__name__}"
+        ws = [w0[i] for i in adm]
+        tie = all(w == ws[0] for w in ws)
+        return (j in adm and w0[j] == 0 and not tie) or j not in adm, f"draw u={rp['u']!r} returns index {j} (weights {w0}, admissible {adm})"
     if rp.get("what", "").startswith("measure:"):
         # empirical law of the plain function (4000 seeded calls) against the reference probabilities
         rr = np.random.default_rng(99)
